@@ -894,8 +894,10 @@ def run_probes(univ, setup, only=None):
                 if readonly and snapshot(w) != snap0:
                     fails.append((name, k, f"read-only operation changed the tree (fault at invocation {k}): {snap_diff(snap0, snapshot(w))}"))
                 if raised is None and p2.n >= k:
-                    # the library swallowed the user's exception: legal only if the state is sound (checked above)
+                    # the callback raised at invocation k but the call returned a result: "a raising predicate / mapper /
+                    # visitor builds no tree, the exception escapes" (the library catches only its own control signals)
                     stats["swallowed"] = stats.get("swallowed", 0) + 1
+                    fails.append((name, k, f"the exception raised at invocation {k} was swallowed: the call returned normally"))
     return fails, stats
 
 
@@ -1096,3 +1098,66 @@ def late_collision_hists():
     H_.append([new, add(0, 0, a), add(0, 0, b), add(0, 0, c), add(0, 0, c), add(0, 0, c, None, True), add(0, 0, c, None, {"n": 1}),
                add(0, 0, d, None, {"n": 9}), ["short", 0, 1, "append_sibling", c, None, None], ["short", 0, 3, "prepend_sibling", a, None, None]])
     return [dict(univ=U, ops=h) for h in H_]
+
+
+# ---------------------------------------------------------------------------
+# (b3) call-INDEX faults of calc_data_id inside from_dict, tied to the model's [FaultIndex.step_k]:
+# the k-th invocation raises whatever its argument (the same object may be passed twice).  The model expresses
+# it by replacing the k-th calling item by an item with a fresh object on which the callback table raises
+# (FaultIndex.poison_items); here the implementation is run BOTH ways - call-index injection on the original
+# items, and the poisoned items with an argument-keyed raising callback - and must behave identically; the
+# poisoned history is what run_mut evaluates.
+# ---------------------------------------------------------------------------
+def poison_items_py(items, k, fresh):
+    """python twin of FaultIndex.poison_items: (items', remaining k or None)"""
+    out = []
+    for d, did, ch in items:
+        if k is None:
+            out.append([d, did, ch])
+            continue
+        if did is None:
+            if k == 0:
+                out.append([fresh, None, ch])
+                k = None
+                continue
+            k -= 1
+        ch2, k = poison_items_py(ch, k, fresh)
+        out.append([d, did, ch2])
+    return out, k
+
+
+def count_calling_items(items):
+    return sum((1 if did is None else 0) + count_calling_items(ch) for d, did, ch in items)
+
+
+def run_from_dict_k(univ, setup, ti, p, items, k, fresh, fn="name"):
+    """returns (Run of the poisoned history, message or None)"""
+    setup_p = [(["new", o[1], {"fn": fn, "raise": [fresh]}] if o[0] == "new" else o) for o in setup]
+    items_p, _ = poison_items_py(items, k, fresh)
+    run = replay13({"univ": univ, "ops": setup_p + [["from_dict", ti, p, items_p]]})
+    # the same on the original items with a fault at invocation k (0-based) of calc_data_id
+    setup_c = [(["new", o[1], fn] if o[0] == "new" else o) for o in setup]
+    w = build_world(univ, setup_c)
+    plan = Plan(k + 1)
+    t = w.trees[ti]
+    hook = t._calc_data_id_hook
+
+    def ticking(tree, data):
+        plan.tick()
+        return hook(tree, data)
+
+    thunk, _, _ = execute(w, ["from_dict", ti, p, items])
+    t._calc_data_id_hook = ticking
+    try:
+        res = [0, thunk()]
+    except CallbackFault:
+        res = [1, 8]
+    except Exception as e:
+        res = [1, H.err_class(e)]
+    finally:
+        t._calc_data_id_hook = hook
+    mine = [res, w.obs()]
+    if mine != run.obs[-1]:
+        return run, (f"from_dict with calc_data_id raising at invocation {k} behaves differently from the poisoned-item run: "
+                     f"{mine[0]} vs {run.obs[-1][0]}" + ("" if mine[1] != run.obs[-1][1] else " (same state)"))
+    return run, None
